@@ -12,7 +12,16 @@ import sys
 
 from . import detsched as ds
 
-KILLED = 1000      # exit status the stub reports for a killed child (the model uses the same constant)
+KILLED = 1000      # what the MODEL calls the status of a killed child
+REAL_KILLED = -9   # what Popen reports for it (a child ended by signal N has returncode -N)
+
+
+def mstat(x):
+    """a real status in the model's vocabulary: killed -> KILLED, ended by its own signal N -> 128+N (what a shell would say)"""
+    if x == REAL_KILLED:
+        return KILLED
+    return 128 - x if x < 0 else x
+
 TEXTS = ["", "x", "two words", "trail   ", "  lead", "tab\t", "{}"]
 
 
@@ -21,7 +30,7 @@ def gen_scenario(rng):
     chunks = []
     for i in range(n):
         chunks.append([0 if rng.random() < 0.65 else 1, rng.randrange(len(TEXTS)), rng.choice([0, 0, 0, 0.05, 0.3])])
-    return {"chunks": chunks, "status": rng.choice([0, 0, 0, 1, 3, 255]), "exit_pause": rng.choice([0, 0, 0.02, 0.4, 1.5]),
+    return {"chunks": chunks, "status": rng.choice([0, 0, 0, 1, 3, 255, -15, -11]), "exit_pause": rng.choice([0, 0, 0.02, 0.4, 1.5]),
             "timeout": rng.choice([0.8, 5.0, 5.0]), "user_stop": rng.choice([None, None, None, 0.0, 0.1, 0.6]),
             "consumer": rng.choice(["after", "after", "during"])}
 
@@ -98,7 +107,7 @@ def run_scenario(sc, chooser=None, seed=0, max_steps=60000):
             sched.yield_point(("svc", "wait"))
             if self.exited is not None:
                 self._rc = self.exited
-                sched.emit("m8", "wait", "reaped", self.exited)
+                sched.emit("m8", "wait", "reaped", mstat(self.exited))
                 return self._rc
             sched.emit("m8", "wait", "timeout")
             raise real_subprocess.TimeoutExpired("stub", timeout)
@@ -110,7 +119,7 @@ def run_scenario(sc, chooser=None, seed=0, max_steps=60000):
             if self._rc is not None:
                 sched.emit("m8", "kill", "late")
                 return
-            self.exited = KILLED
+            self.exited = REAL_KILLED
             st["killed"] = True
             st["exited_at"] = sched.steps
             sched.emit("m8", "kill", "killed")
@@ -204,7 +213,7 @@ def run_scenario(sc, chooser=None, seed=0, max_steps=60000):
             return
         svc.exited = sc["status"]
         st["exited_at"] = sched.steps
-        sched.emit("m8", "exit", sc["status"])
+        sched.emit("m8", "exit", mstat(sc["status"]))
 
     def main_body():
         threads.start_main_thread()
